@@ -21,7 +21,7 @@ EXPLANATION = (
     "re._parser) and the float/integer classifier agree; T6 printing side of the round trip: in Term.__repr__ the test that decides whether an operand of a "
     "binary operator is parenthesised, evaluated for operand priority below / equal / above the operator's and the three operator types, leaves an "
     "operand bare exactly when its priority is lower, or equal on the associative side (left for yfx, right for xfy); atoms and non-operator terms are "
-    "never parenthesised. Equality of the re-parsed term for all terms is not decided."
+    "never parenthesised; T7 Not.__repr__ puts a negated conjunction or disjunction in parentheses and nothing else. Equality of the re-parsed term for all terms is not decided."
 )
 TECHNIQUE = "static analysis: CFG must-facts (length guards with short-circuit edges), table/range agreement"
 LEVEL_TEXT = EXPLANATION
@@ -581,6 +581,37 @@ def rule_t6(repo, col):
                        construct="Term.__repr__: %s operand, %s" % (which, what), function="Term.__repr__")
 
 
+def rule_t7(repo, col):
+    """Not.__repr__: a negated conjunction or disjunction is printed in parentheses (negation binds tighter than ',' and ';')"""
+    from .. import dtable
+
+    c = repo.cls("problog.logic", "Not")
+    f = c.methods.get("__repr__")
+    if f is None:
+        raise AnalysisError("Not.__repr__ missing")
+    m = f.module
+    paths = dtable.extract(f.node, opaque_loops=True)
+    for kind in ("And", "Or", None):
+        mapping = [("isinstance(self.child, And)", kind == "And"), ("isinstance(self.child, Or)", kind == "Or"),
+                   ("type(self.child) == And", kind == "And"), ("type(self.child) == Or", kind == "Or"),
+                   ("isinstance(self.child, (And, Or))", kind is not None), ("isinstance(self.child, (Or, And))", kind is not None)]
+        ps = dtable.compatible(paths, mapping)
+        ps = [p_ for p_ in ps if all(dtable.eval_atom(s_, mapping, None) is not None or "functor" in s_ for s_, _, _ in p_.conds)]
+        if not ps:
+            raise AnalysisError("Not.__repr__: no path for a child of kind %s" % kind)
+        bad = []
+        for p_ in ps:
+            txt = p_.value or ""
+            stores = [a for fn, a, _ in p_.calls if fn == "<store>" and a[0] == "self.repr"]
+            src = stores[-1][1] if stores else txt
+            paren = "'(%s)' % str(self.child)" in src
+            if paren != (kind is not None):
+                bad.append(src)
+        col.decide("T7", m, f.node, not bad, "a negated %s is printed %s parentheses" % (kind or "atom / other term", "in" if kind else "without"),
+                   "Not.__repr__ prints a negated %s %s parentheses (%s): \\+(a;b) printed as \\+a;b parses as (\\+a);b - a different clause" % (
+                       kind or "atom", "without" if kind else "in", bad[:1]), construct="Not.__repr__: child %s" % (kind or "other"), function="Not.__repr__")
+
+
 def run(repo, col):
     col.rule("T1", "dispatch-table coverage of the tokenizer")
     col.rule("T2", "guard before look-ahead index")
@@ -594,3 +625,5 @@ def run(repo, col):
     rule_t5(repo, col)
     col.rule("T6", "operator printing: parentheses by priority and associativity")
     rule_t6(repo, col)
+    col.rule("T7", "negation printing: compound children in parentheses")
+    rule_t7(repo, col)
